@@ -240,10 +240,26 @@ Spec == Init /\ [][Next]_vars
 RoutableA(T, url) ==
   {m \in MethodsOf(T) :
      \A o \in LegalSet("curly", T, Rq(m, url, "", "", 0, "", <<>>)) : ~(o.k = "err" /\ o.st \in {404, 405})}
+\* the repaired computeAllowedMethods: every method some route declares for which the router's answer is not 404 / 405
+AllowedMethodsRouter(T, url) ==
+  {m \in MethodsOf(T) : \A o \in CurlyOutcomes(T, Rq(m, url, "", "", 0, "", <<>>)) : ~(o.k = "err" /\ o.st \in {404, 405})}
+AllowedImpl(T, url) ==
+  IF OptionsViaRouter THEN AllowedMethodsRouter(T, url) ELSE AllowedMethodsImpl(T, url, CurlySelected(T, url))
+\* ... and what Layer A leaves open: some / every legal outcome is neither 404 nor 405
+RoutableMayA(T, url) ==
+  {m \in MethodsOf(T) :
+     \E o \in LegalSet("curly", T, Rq(m, url, "", "", 0, "", <<>>)) : ~(o.k = "err" /\ o.st \in {404, 405})}
 OptionsTruthful(T) ==
-  (Mode = "agree" /\ CommonFragment(T)) =>
-     \A url \in {p \in DerivedPaths(T) : Canon(p)} :
-        AllowedMethodsImpl(T, url, CurlySelected(T, url)) = RoutableA(T, url)
+  /\ (Mode = "agree" /\ CommonFragment(T)) =>
+        \A url \in {p \in DerivedPaths(T) : Canon(p)} : AllowedImpl(T, url) = RoutableA(T, url)
+  \* on every template form (the repaired code only): between the two readings
+  /\ (OptionsViaRouter /\ Mode \in {"agree", "path"}) =>
+        \A url \in DerivedPaths(T) : RoutableA(T, url) \subseteq AllowedImpl(T, url) /\ AllowedImpl(T, url) \subseteq RoutableMayA(T, url)
+\* C14 for the OPTIONS filter: the same methods for p and for p/
+OptionsSlash(T) ==
+  (Mode \in {"agree", "path"}) =>
+     \A url \in {p \in DerivedPaths(T) : SlashQualifies("curly", T, [path |-> p])} :
+        AllowedImpl(T, url) = AllowedImpl(T, url \o "/")
 
 \* what Layer B predicts the real CurlyRouter answers (compared with the real answers by the
 \* conformance run: "model drift")
@@ -258,9 +274,12 @@ Check ==
                       jo == JsrOutcomes(T, rseq[i]) IN
                   [ok |-> Theorems(tbl, T, TR, rseq[i], co, jo), pred |-> PredOf(co), predj |-> PredOf(jo)]]
     IN /\ DominanceStrict(T)
-       /\ OptionsTruthful(T)
        /\ \A i \in 1..Len(rseq) : res[i].ok
        /\ PrintT("CASE " \o ToJson([services |-> tbl, reqs |-> rseq,
                                      pred |-> [i \in 1..Len(rseq) |-> res[i].pred],
                                      predj |-> [i \in 1..Len(rseq) |-> res[i].predj]]))
+
+\* the model-level statements about computeAllowedMethods, as an invariant of their own (a counter-model must
+\* be refuted by THIS invariant)
+OptionsInv == phase = 2 => LET T == Prepare(tbl) IN OptionsTruthful(T) /\ OptionsSlash(T)
 =============================================================================
